@@ -84,6 +84,10 @@ fn start_db(
         log::warn!("Nun-db has restarted with op-log in a invalid state, oplog and keys metadafile will be deleted!");
         disk_ops::Oplog::clean_op_log_metadata_files();
     }
+    // After the clean up the (now empty) op-log and the keys file agree again and the flag file is
+    // gone (= valid). The in memory flag must say the same, otherwise the next new key does not
+    // invalidate the op-log on disk and a later restart keeps records with unknown key ids.
+    let is_oplog_valid = true;
 
     let dbs = nundb::db_ops::create_init_dbs(
         user.to_string(),
